@@ -44,6 +44,8 @@ def cases(tier, seed):
         yield {"fam": "compete", "i": i}
     for i in range(540 if tier == "quick" else 5400):
         yield {"fam": "paircode", "i": i}
+    for i in range(32 if tier == "quick" else 320):
+        yield {"fam": "neartie", "i": i}
 
 
 def setup(ctx):
@@ -132,6 +134,22 @@ def reuse_sweep(ctx, pred, refa, pi, ri):
                 pass
 
 
+def run_neartie(ctx, pred, refa):
+    """large instances, competing candidates whose scores differ in the 7th-9th digit: a few thresholds only"""
+    from panoptica.utils.processing_pair import UnmatchedInstancePair
+
+    for metric in ("IOU", "DSC"):
+        for thr in (0.3, 0.05):
+            for m2o in (False, True):
+                ctx.count("evaluations")
+                try:
+                    with pan.quiet():
+                        pan.make_matcher({"kind": "naive", "metric": metric, "thr": thr, "m2o": m2o}).match_instances(UnmatchedInstancePair(pred.copy(), refa.copy()))
+                except Exception:  # noqa: BLE001
+                    pass
+                ctx.nontrivial(gen.arr_key(pred, refa), metric, thr, m2o)
+
+
 def compete_pair(seed, i):
     """one prediction spanning several references / one reference covered by several
     predictions with controlled overlap sizes, incl. exact ties"""
@@ -172,6 +190,10 @@ def run(case, ctx):
     elif fam == "paircode":
         pred, refa = gen.paircode_boundary_pair(ctx.seed, i)
         ctx.count("f:family.paircode_boundary")
+    elif fam == "neartie":
+        pred, refa = gen.near_tie_pair(ctx.seed, i)
+        ctx.count("f:family.near_tie_large_instances")
+        return run_neartie(ctx, pred, refa)
     else:
         pred, refa = compete_pair(ctx.seed, i)
     if not pred.any() or not refa.any():
